@@ -65,6 +65,19 @@ def generate(rng, tier, stats):
                     o["status"]["containerStatuses"] = [K.container_status("main", restarts=rng.choice([0, 0, apm + 1]), waiting=rng.choice(WAIT),
                                                                            last_finished=rng.choice([None, -60]))]
                     o["status"]["phase"] = "Pending"
+                # the triggers read regular, init and ephemeral container statuses alike (kubectl debug adds the latter)
+                r2 = rng.random()
+                if r2 < 0.25:
+                    o["status"]["ephemeralContainerStatuses"] = [K.container_status("debugger", restarts=0)] * rng.choice([1, 1, 2])
+                    wprop.bump(stats, "extra container statuses", "ephemeral")
+                elif r2 < 0.4:
+                    o["status"]["initContainerStatuses"] = [K.container_status("init", restarts=rng.choice([0, apm + 1, afm + 1]),
+                                                                               last_reason="Error", last_finished=-20)]
+                    wprop.bump(stats, "extra container statuses", "init")
+                elif r2 < 0.5 and o["status"].get("containerStatuses"):
+                    o["status"]["ephemeralContainerStatuses"] = o["status"]["containerStatuses"]
+                    o["status"]["containerStatuses"] = [K.container_status("main", restarts=0)]
+                    wprop.bump(stats, "extra container statuses", "trigger in the ephemeral one")
                 if slow is not None:
                     o["status"]["startTime"] = K.ts(-(slow + rng.choice([-1, 0, 1, 100])))
         wprop.bump(stats, "thresholds ap/af", "%s/%s" % (apm, max(afm, apm)))
